@@ -2,8 +2,10 @@
    ExtrOcamlBasic only (bool, option, list, prod, unit, sumbool mapped to
    OCaml's); Z, positive, nat stay as extracted inductives; no Extract Constant. *)
 From Coq Require Import ExtrOcamlBasic.
-From NX Require Import Bytes Reply Wire Query.
+From NX Require Import Bytes Reply Wire Query Forwarder Profile.
 Extraction Language OCaml.
 Extraction "model.ml"
   udp_adjust udp_reply tcp_frame tc_bit c05_udp_ok c05_tcp_ok
-  parse handle serve upstream_payload servfail find_opts c13_ok c01_ok.
+  parse handle serve upstream_payload servfail find_opts c13_ok c01_ok
+  new_fwd fwd_set fwd_resolve spec_get split_dots fqdn
+  pset pget pget_spec mkProfile mkClient mkCidr masked.
